@@ -10,6 +10,7 @@ invariant and no capture side condition is needed.
 -/
 import GluonModel.HM
 import GluonModel.Proofs.HM
+import GluonModel.Proofs.HMFuel
 
 namespace GluonModel.HM.Proofs
 open GluonModel.HM
@@ -49,15 +50,15 @@ theorem sol_comp (S : Subst) (E : Eqs) (h : Sol S E) (Q : Subst) : Sol (Q.comp S
   rw [subst_comp, subst_comp, h p hp]
 
 /-- one unification step keeps the invariant, for the equations extended by the new one -/
-theorem unifyS_inv (S : Subst) (n : Nat) (a b : Ty) (S' : Subst) (n' : Nat) (E : Eqs)
-    (h : unifyS false S n a b = .ok (S', n')) (hi : Inv S E) : Inv S' ((a, b) :: E) := by
-  unfold unifyS at h
+theorem unifySF_inv (fuel : Nat) (S : Subst) (n : Nat) (a b : Ty) (S' : Subst) (n' : Nat) (E : Eqs)
+    (h : unifySF false fuel S n a b = .ok (S', n')) (hi : Inv S E) : Inv S' ((a, b) :: E) := by
+  unfold unifySF at h
   split at h
   · cases h
   · next U n₁ hu =>
     injection h with h; injection h with hS _
     subst hS
-    have hs := unify_sound unifyFuel n _ _ U n₁ hu
+    have hs := unify_sound fuel n _ _ U n₁ hu
     constructor
     · intro p hp
       cases hp with
@@ -68,10 +69,14 @@ theorem unifyS_inv (S : Subst) (n : Nat) (a b : Ty) (S' : Subst) (n' : Nat) (E :
       have hab : (a.subst S).subst R = (b.subst S).subst R := by
         rw [inv_absorb S E hi R hRE a, inv_absorb S E hi R hRE b]
         exact hR (a, b) (List.mem_cons_self ..)
-      have hm := unify_mgu unifyFuel n _ _ U R n₁ hu hab
+      have hm := unify_mgu fuel n _ _ U R n₁ hu hab
       show ((S v).subst U).subst R = R v
       rw [← subst_comp, subst_congr (R.comp U) R (S v) hm]
       exact hi.2 R hRE v
+
+theorem unifyS_inv (S : Subst) (n : Nat) (a b : Ty) (S' : Subst) (n' : Nat) (E : Eqs)
+    (h : unifyS false S n a b = .ok (S', n')) (hi : Inv S E) : Inv S' ((a, b) :: E) :=
+  unifySF_inv unifyFuel S n a b S' n' E h hi
 
 /-! ### environments -/
 
@@ -210,8 +215,8 @@ theorem asRec_some (t row : Ty) (h : asRec t = some row) : t = tRec row := by
 
 /-- what is proved for every expression -/
 def SoundAt (e : Expr) : Prop :=
-  ∀ (Γ : Env) (S : Subst) (n : Nat) (τ : Ty) (S' : Subst) (n' : Nat),
-    infer false Γ e S n = .ok (τ, S', n') →
+  ∀ (fuel : Nat) (Γ : Env) (S : Subst) (n : Nat) (τ : Ty) (S' : Subst) (n' : Nat),
+    inferF false fuel Γ e S n = .ok (τ, S', n') →
     ∀ E, Inv S E → ∃ E', (∀ R, Sol R E' → Sol R E) ∧ Inv S' E' ∧
       ∀ R, Sol R E' → ∀ Δ, EnvRel Δ Γ R → HasType Δ e (τ.subst R)
 
@@ -225,8 +230,8 @@ theorem infer_sound_aux : ∀ e : Expr, SoundAt e := by
   intro e
   induction e with
   | var x =>
-    intro Γ S n τ S' n' h E hi
-    simp only [infer] at h
+    intro fuel Γ S n τ S' n' h E hi
+    simp only [inferF] at h
     split at h
     · cases h
     · next s hs =>
@@ -237,14 +242,14 @@ theorem infer_sound_aux : ∀ e : Expr, SoundAt e := by
       obtain ⟨P, hP, hsub⟩ := envRel_lookup Δ Γ R x s hrel hs
       exact HasType.var Δ x P _ hP (hsub _ (den_inst s n R))
   | lam x b ih =>
-    intro Γ S n τ S' n' h E hi
-    simp only [infer] at h
+    intro fuel Γ S n τ S' n' h E hi
+    simp only [inferF] at h
     split at h
     · cases h
     · next τb S₁ n₁ hb =>
       injection h with h; injection h with hτ h; injection h with hS _
       subst hτ; subst hS
-      obtain ⟨E', hsub, hi', hty⟩ := ih _ S (n + 1) τb S₁ n₁ hb E hi
+      obtain ⟨E', hsub, hi', hty⟩ := ih fuel _ S (n + 1) τb S₁ n₁ hb E hi
       refine ⟨E', hsub, hi', ?_⟩
       intro R hR Δ hrel
       simp only [fn, Ty.subst]
@@ -253,8 +258,8 @@ theorem infer_sound_aux : ∀ e : Expr, SoundAt e := by
       simp only [EnvRel]
       exact ⟨trivial, fun τ hden => den_mono _ R τ hden, hrel⟩
   | app f a ihf iha =>
-    intro Γ S n τ S' n' h E hi
-    simp only [infer] at h
+    intro fuel Γ S n τ S' n' h E hi
+    simp only [inferF] at h
     split at h
     · cases h
     · next τf S₁ n₁ hf =>
@@ -266,9 +271,9 @@ theorem infer_sound_aux : ∀ e : Expr, SoundAt e := by
         · next S₃ n₃ hu =>
           injection h with h; injection h with hτ h; injection h with hS _
           subst hτ; subst hS
-          obtain ⟨E₁, hsub₁, hi₁, hty₁⟩ := ihf Γ S n τf S₁ n₁ hf E hi
-          obtain ⟨E₂, hsub₂, hi₂, hty₂⟩ := iha Γ S₁ n₁ τa S₂ n₂ ha E₁ hi₁
-          have hi₃ := unifyS_inv S₂ (n₂ + 1) _ _ S₃ n₃ E₂ hu hi₂
+          obtain ⟨E₁, hsub₁, hi₁, hty₁⟩ := ihf fuel Γ S n τf S₁ n₁ hf E hi
+          obtain ⟨E₂, hsub₂, hi₂, hty₂⟩ := iha fuel Γ S₁ n₁ τa S₂ n₂ ha E₁ hi₁
+          have hi₃ := unifySF_inv fuel S₂ (n₂ + 1) _ _ S₃ n₃ E₂ hu hi₂
           refine ⟨_, fun R h => hsub₁ R (hsub₂ R (sol_tail R _ _ h)), hi₃, ?_⟩
           intro R hR Δ hrel
           have hR₂ := sol_tail R _ _ hR
@@ -279,13 +284,13 @@ theorem infer_sound_aux : ∀ e : Expr, SoundAt e := by
           simp only [fn, Ty.subst] at t₁
           exact HasType.app Δ f a _ _ t₁ t₂
   | letE x e b ihe ihb =>
-    intro Γ S n τ S' n' h E hi
-    simp only [infer] at h
+    intro fuel Γ S n τ S' n' h E hi
+    simp only [inferF] at h
     split at h
     · cases h
     · next τ₁ S₁ n₁ he =>
-      obtain ⟨E₁, hsub₁, hi₁, hty₁⟩ := ihe Γ S n τ₁ S₁ n₁ he E hi
-      obtain ⟨E₂, hsub₂, hi₂, hty₂⟩ := ihb _ S₁ n₁ τ S' n' h E₁ hi₁
+      obtain ⟨E₁, hsub₁, hi₁, hty₁⟩ := ihe fuel Γ S n τ₁ S₁ n₁ he E hi
+      obtain ⟨E₂, hsub₂, hi₂, hty₂⟩ := ihb fuel _ S₁ n₁ τ S' n' h E₁ hi₁
       refine ⟨E₂, fun R h => hsub₁ R (hsub₂ R h), hi₂, ?_⟩
       intro R hR Δ hrel
       have hR₁ := hsub₂ R hR
@@ -326,20 +331,20 @@ theorem infer_sound_aux : ∀ e : Expr, SoundAt e := by
       rw [hτ'']
       exact this
   | int k =>
-    intro Γ S n τ S' n' h E hi
-    simp only [infer] at h
+    intro fuel Γ S n τ S' n' h E hi
+    simp only [inferF] at h
     injection h with h; injection h with hτ h; injection h with hS _
     subst hτ; subst hS
     exact ⟨E, fun R h => h, hi, fun R _ Δ _ => HasType.int Δ k⟩
   | str k =>
-    intro Γ S n τ S' n' h E hi
-    simp only [infer] at h
+    intro fuel Γ S n τ S' n' h E hi
+    simp only [inferF] at h
     injection h with h; injection h with hτ h; injection h with hS _
     subst hτ; subst hS
     exact ⟨E, fun R h => h, hi, fun R _ Δ _ => HasType.str Δ k⟩
   | lt a b iha ihb =>
-    intro Γ S n τ S' n' h E hi
-    simp only [infer] at h
+    intro fuel Γ S n τ S' n' h E hi
+    simp only [inferF] at h
     split at h
     · cases h
     · next τa S₁ n₁ ha =>
@@ -354,10 +359,10 @@ theorem infer_sound_aux : ∀ e : Expr, SoundAt e := by
           · next S₄ n₄ hu₂ =>
             injection h with h; injection h with hτ h; injection h with hS _
             subst hτ; subst hS
-            obtain ⟨E₁, hsub₁, hi₁, hty₁⟩ := iha Γ S n τa S₁ n₁ ha E hi
-            have hi₂ := unifyS_inv S₁ n₁ _ _ S₂ n₂ E₁ hu₁ hi₁
-            obtain ⟨E₃, hsub₃, hi₃, hty₃⟩ := ihb Γ S₂ n₂ τb S₃ n₃ hb _ hi₂
-            have hi₄ := unifyS_inv S₃ n₃ _ _ S₄ n₄ E₃ hu₂ hi₃
+            obtain ⟨E₁, hsub₁, hi₁, hty₁⟩ := iha fuel Γ S n τa S₁ n₁ ha E hi
+            have hi₂ := unifySF_inv fuel S₁ n₁ _ _ S₂ n₂ E₁ hu₁ hi₁
+            obtain ⟨E₃, hsub₃, hi₃, hty₃⟩ := ihb fuel Γ S₂ n₂ τb S₃ n₃ hb _ hi₂
+            have hi₄ := unifySF_inv fuel S₃ n₃ _ _ S₄ n₄ E₃ hu₂ hi₃
             refine ⟨_, fun R h => hsub₁ R (sol_tail R _ _ (hsub₃ R (sol_tail R _ _ h))), hi₄, ?_⟩
             intro R hR Δ hrel
             have hR₃ := sol_tail R _ _ hR
@@ -369,8 +374,8 @@ theorem infer_sound_aux : ∀ e : Expr, SoundAt e := by
             rw [← sol_head R _ _ _ hR] at t₃
             exact HasType.lt Δ a b t₁ t₃
   | ifE c t e ihc iht ihe =>
-    intro Γ S n τ S' n' h E hi
-    simp only [infer] at h
+    intro fuel Γ S n τ S' n' h E hi
+    simp only [inferF] at h
     split at h
     · cases h
     · next τc S₁ n₁ hc =>
@@ -388,11 +393,11 @@ theorem infer_sound_aux : ∀ e : Expr, SoundAt e := by
             · next S₅ n₅ hu₂ =>
               injection h with h; injection h with hτ h; injection h with hS _
               subst hτ; subst hS
-              obtain ⟨E₁, hsub₁, hi₁, hty₁⟩ := ihc Γ S n τc S₁ n₁ hc E hi
-              have hi₂ := unifyS_inv S₁ n₁ _ _ S₂ n₂ E₁ hu₁ hi₁
-              obtain ⟨E₃, hsub₃, hi₃, hty₃⟩ := iht Γ S₂ n₂ τt S₃ n₃ ht _ hi₂
-              obtain ⟨E₄, hsub₄, hi₄, hty₄⟩ := ihe Γ S₃ n₃ τe S₄ n₄ he _ hi₃
-              have hi₅ := unifyS_inv S₄ n₄ _ _ S₅ n₅ E₄ hu₂ hi₄
+              obtain ⟨E₁, hsub₁, hi₁, hty₁⟩ := ihc fuel Γ S n τc S₁ n₁ hc E hi
+              have hi₂ := unifySF_inv fuel S₁ n₁ _ _ S₂ n₂ E₁ hu₁ hi₁
+              obtain ⟨E₃, hsub₃, hi₃, hty₃⟩ := iht fuel Γ S₂ n₂ τt S₃ n₃ ht _ hi₂
+              obtain ⟨E₄, hsub₄, hi₄, hty₄⟩ := ihe fuel Γ S₃ n₃ τe S₄ n₄ he _ hi₃
+              have hi₅ := unifySF_inv fuel S₄ n₄ _ _ S₅ n₅ E₄ hu₂ hi₄
               refine ⟨_, fun R h => hsub₁ R (sol_tail R _ _ (hsub₃ R (hsub₄ R (sol_tail R _ _ h)))),
                 hi₅, ?_⟩
               intro R hR Δ hrel
@@ -407,14 +412,14 @@ theorem infer_sound_aux : ∀ e : Expr, SoundAt e := by
               rw [← sol_head R _ _ _ hR] at t₄
               exact HasType.ifE Δ c t e _ t₁ t₃ t₄
   | fnil =>
-    intro Γ S n τ S' n' h E hi
-    simp only [infer] at h
+    intro fuel Γ S n τ S' n' h E hi
+    simp only [inferF] at h
     injection h with h; injection h with hτ h; injection h with hS _
     subst hτ; subst hS
     exact ⟨E, fun R h => h, hi, fun R _ Δ _ => HasType.fnil Δ⟩
   | fcons l e rest ihe ihr =>
-    intro Γ S n τ S' n' h E hi
-    simp only [infer] at h
+    intro fuel Γ S n τ S' n' h E hi
+    simp only [inferF] at h
     split at h
     · cases h
     · next τe S₁ n₁ he =>
@@ -423,39 +428,39 @@ theorem infer_sound_aux : ∀ e : Expr, SoundAt e := by
       · next ρ S₂ n₂ hr =>
         injection h with h; injection h with hτ h; injection h with hS _
         subst hτ; subst hS
-        obtain ⟨E₁, hsub₁, hi₁, hty₁⟩ := ihe Γ S n τe S₁ n₁ he E hi
-        obtain ⟨E₂, hsub₂, hi₂, hty₂⟩ := ihr Γ S₁ n₁ ρ S₂ n₂ hr E₁ hi₁
+        obtain ⟨E₁, hsub₁, hi₁, hty₁⟩ := ihe fuel Γ S n τe S₁ n₁ he E hi
+        obtain ⟨E₂, hsub₂, hi₂, hty₂⟩ := ihr fuel Γ S₁ n₁ ρ S₂ n₂ hr E₁ hi₁
         refine ⟨E₂, fun R h => hsub₁ R (hsub₂ R h), hi₂, ?_⟩
         intro R hR Δ hrel
         simp only [Ty.subst]
         exact HasType.fcons Δ l e rest _ _ (hty₁ R (hsub₂ R hR) Δ hrel) (hty₂ R hR Δ hrel)
   | rcd f ih =>
-    intro Γ S n τ S' n' h E hi
-    simp only [infer] at h
+    intro fuel Γ S n τ S' n' h E hi
+    simp only [inferF] at h
     split at h
     · cases h
     · next ρ S₁ n₁ hf =>
       injection h with h; injection h with hτ h; injection h with hS _
       subst hτ; subst hS
-      obtain ⟨E₁, hsub₁, hi₁, hty₁⟩ := ih Γ S n ρ S₁ n₁ hf E hi
+      obtain ⟨E₁, hsub₁, hi₁, hty₁⟩ := ih fuel Γ S n ρ S₁ n₁ hf E hi
       refine ⟨E₁, hsub₁, hi₁, ?_⟩
       intro R hR Δ hrel
       simp only [tRec, Ty.subst]
       exact HasType.rcd Δ f _ (hty₁ R hR Δ hrel)
   | proj e l ih =>
-    intro Γ S n τ S' n' h E hi
-    simp only [infer] at h
+    intro fuel Γ S n τ S' n' h E hi
+    simp only [inferF] at h
     split at h
     · cases h
     · next τe S₁ n₁ he =>
-      obtain ⟨E₁, hsub₁, hi₁, hty₁⟩ := ih Γ S n τe S₁ n₁ he E hi
+      obtain ⟨E₁, hsub₁, hi₁, hty₁⟩ := ih fuel Γ S n τe S₁ n₁ he E hi
       -- the path through unification
       have via : ∀ (S₂ : Subst) (n₂ : Nat),
-          unifyS false S₁ (n₁ + 2) (tRec (.ext l (.var n₁) (.var (n₁ + 1)))) τe = .ok (S₂, n₂) →
+          unifySF false fuel S₁ (n₁ + 2) (tRec (.ext l (.var n₁) (.var (n₁ + 1)))) τe = .ok (S₂, n₂) →
           ∃ E', (∀ R, Sol R E' → Sol R E) ∧ Inv S₂ E' ∧
             ∀ R, Sol R E' → ∀ Δ, EnvRel Δ Γ R → HasType Δ (.proj e l) ((Ty.var n₁).subst R) := by
         intro S₂ n₂ hu
-        have hi₂ := unifyS_inv S₁ (n₁ + 2) _ _ S₂ n₂ E₁ hu hi₁
+        have hi₂ := unifySF_inv fuel S₁ (n₁ + 2) _ _ S₂ n₂ E₁ hu hi₁
         refine ⟨_, fun R h => hsub₁ R (sol_tail R _ _ h), hi₂, ?_⟩
         intro R hR Δ hrel
         have t₁ := hty₁ R (sol_tail R _ _ hR) Δ hrel
@@ -463,7 +468,7 @@ theorem infer_sound_aux : ∀ e : Expr, SoundAt e := by
         simp only [tRec, Ty.subst] at t₁
         exact HasType.proj Δ e l _ _ t₁ (HasField.here ..)
       have viaU : ∀ (r : Except UErr (Ty × Subst × Nat)),
-          (match unifyS false S₁ (n₁ + 2) (tRec (.ext l (.var n₁) (.var (n₁ + 1)))) τe with
+          (match unifySF false fuel S₁ (n₁ + 2) (tRec (.ext l (.var n₁) (.var (n₁ + 1)))) τe with
             | .error err => (.error err : Except UErr (Ty × Subst × Nat))
             | .ok (S₂, n₂) => .ok (.var n₁, S₂, n₂)) = r → r = .ok (τ, S', n') →
           ∃ E', (∀ R, Sol R E' → Sol R E) ∧ Inv S' E' ∧
@@ -493,14 +498,14 @@ theorem infer_sound_aux : ∀ e : Expr, SoundAt e := by
         · exact viaU _ rfl h
         · cases h
   | anil =>
-    intro Γ S n τ S' n' h E hi
-    simp only [infer] at h
+    intro fuel Γ S n τ S' n' h E hi
+    simp only [inferF] at h
     injection h with h; injection h with hτ h; injection h with hS _
     subst hτ; subst hS
     exact ⟨E, fun R h => h, hi, fun R _ Δ _ => by simp only [tArr, Ty.subst]; exact HasType.anil Δ _⟩
   | asnoc init e ihi ihe =>
-    intro Γ S n τ S' n' h E hi
-    simp only [infer] at h
+    intro fuel Γ S n τ S' n' h E hi
+    simp only [inferF] at h
     split at h
     · cases h
     · next τi S₁ n₁ hin =>
@@ -512,9 +517,9 @@ theorem infer_sound_aux : ∀ e : Expr, SoundAt e := by
         · next S₃ n₃ hu =>
           injection h with h; injection h with hτ h; injection h with hS _
           subst hτ; subst hS
-          obtain ⟨E₁, hsub₁, hi₁, hty₁⟩ := ihi Γ S n τi S₁ n₁ hin E hi
-          obtain ⟨E₂, hsub₂, hi₂, hty₂⟩ := ihe Γ S₁ n₁ τe S₂ n₂ he E₁ hi₁
-          have hi₃ := unifyS_inv S₂ n₂ _ _ S₃ n₃ E₂ hu hi₂
+          obtain ⟨E₁, hsub₁, hi₁, hty₁⟩ := ihi fuel Γ S n τi S₁ n₁ hin E hi
+          obtain ⟨E₂, hsub₂, hi₂, hty₂⟩ := ihe fuel Γ S₁ n₁ τe S₂ n₂ he E₁ hi₁
+          have hi₃ := unifySF_inv fuel S₂ n₂ _ _ S₃ n₃ E₂ hu hi₂
           refine ⟨_, fun R h => hsub₁ R (hsub₂ R (sol_tail R _ _ h)), hi₃, ?_⟩
           intro R hR Δ hrel
           have hR₂ := sol_tail R _ _ hR
@@ -526,15 +531,15 @@ theorem infer_sound_aux : ∀ e : Expr, SoundAt e := by
           simp only [tArr, Ty.subst] at t₁ ⊢
           exact HasType.asnoc Δ init e _ t₁ t₂
   | conA =>
-    intro Γ S n τ S' n' h E hi
-    simp only [infer] at h
+    intro fuel Γ S n τ S' n' h E hi
+    simp only [inferF] at h
     injection h with h; injection h with hτ h; injection h with hS _
     subst hτ; subst hS
     exact ⟨E, fun R h => h, hi, fun R _ Δ _ => by
       simp only [fn, tT, Ty.subst]; exact HasType.conA Δ _⟩
   | conB =>
-    intro Γ S n τ S' n' h E hi
-    simp only [infer] at h
+    intro fuel Γ S n τ S' n' h E hi
+    simp only [inferF] at h
     injection h with h; injection h with hτ h; injection h with hS _
     subst hτ; subst hS
     exact ⟨E, fun R h => h, hi, fun R _ Δ _ => by
@@ -546,14 +551,16 @@ theorem infer_sound_aux : ∀ e : Expr, SoundAt e := by
 theorem infer_sound (Γ : Env) (e : Expr) (n : Nat) (τ : Ty) (S : Subst) (n' : Nat)
     (h : infer false Γ e Subst.id n = .ok (τ, S, n')) :
     HasType (denote S Γ) e (τ.subst S) := by
-  obtain ⟨E', _, hi', hty⟩ := infer_sound_aux e Γ Subst.id n τ S n' h [] inv_nil
+  obtain ⟨E', _, hi', hty⟩ := infer_sound_aux e unifyFuel Γ Subst.id n τ S n'
+    (by rw [inferF_unifyFuel]; exact h) [] inv_nil
   exact hty S hi'.1 _ (envRel_denote S Γ)
 
 /-- … and at every instance of the reported type. -/
 theorem infer_sound_inst (Γ : Env) (e : Expr) (n : Nat) (τ : Ty) (S : Subst) (n' : Nat) (Q : Subst)
     (h : infer false Γ e Subst.id n = .ok (τ, S, n')) :
     HasType (denote (Q.comp S) Γ) e ((τ.subst S).subst Q) := by
-  obtain ⟨E', _, hi', hty⟩ := infer_sound_aux e Γ Subst.id n τ S n' h [] inv_nil
+  obtain ⟨E', _, hi', hty⟩ := infer_sound_aux e unifyFuel Γ Subst.id n τ S n'
+    (by rw [inferF_unifyFuel]; exact h) [] inv_nil
   have := hty (Q.comp S) (sol_comp S E' hi'.1 Q) _ (envRel_denote _ Γ)
   rw [subst_comp] at this
   exact this
